@@ -30,7 +30,7 @@ ASSUMPTIONS = [
     "for VCF the SNV end is asserted for the pysam-backed reader ('vcf'); the simple readers are judged on start and on END-tagged records",
     "text format carries coordinates only; BED carries coordinates and name",
 ]
-BUDGET_S = {"quick": 240, "thorough": 1500}
+BUDGET_S = {"quick": 600, "thorough": 2400}
 GENES = ["TP53", "BRCA2", "HLA-A", "A,B", "x.1", "C-1_2", "-", "MIR1-1HG", "a|b", "p.(=)"]
 
 
